@@ -75,6 +75,13 @@ class SymArray(np.ndarray):
         if self.dtype != object:
             return np.ndarray.astype(self, dtype, *args, **kwargs)
         if is_float_dtype(dtype):
+            if any(isinstance(e, str) for e in self.ravel().tolist()):
+                from .tokens import symfloat
+                out = np.empty(self.shape, dtype=object)
+                for idx in np.ndindex(self.shape):
+                    e = self[idx]
+                    out[idx] = symfloat(e) if isinstance(e, str) else e
+                return out.view(SymArray)
             return self.copy()
         if is_int_dtype(dtype):
             out = np.empty(self.shape, dtype=object)
@@ -99,7 +106,7 @@ class SymArray(np.ndarray):
             return np.asarray(self.tolist(), dtype=bool).reshape(self.shape)
         if dtype is object or dtype == object:
             return self.copy()
-        if dtype is str or (isinstance(dtype, np.dtype) and dtype.kind == "U"):
+        if dtype is str or dtype is np.str_ or (isinstance(dtype, np.dtype) and dtype.kind == "U"):
             return np.asarray(self.tolist(), dtype=dtype)
         raise PathAbort(f"astype({dtype}) on symbolic array")
 
@@ -252,6 +259,11 @@ def _map(f, a):
     return f(a)
 
 
+def _has_token(x):
+    from .tokens import is_pua
+    return any(is_pua(ch) for ch in x)
+
+
 def _plain(a):
     """Return a plain numpy array if nothing symbolic is inside (else None)."""
     if isinstance(a, np.ndarray) and a.dtype != object:
@@ -341,6 +353,9 @@ class SymNP:
                 return _obj(a)
             r = np.array(a, **kw)
             if r.dtype.kind == "f":
+                return r.astype(object).view(SymArray)
+            if r.dtype.kind == "U" and r.size and any(_has_token(x) for x in r.ravel().tolist()):
+                # words of a text file, some of them placeholder tokens: keep them convertible (astype)
                 return r.astype(object).view(SymArray)
             return r
         if dtype is object:
